@@ -79,6 +79,7 @@ def run(c):
     c.mc_bg('MC_Masking', min_states=9)
     c.assumptions += ['values, share contents and tapes are sampled (all-zero, all-one, constant, alternating, cancelling and pseudo-random tapes); structure (share counts 2..4, partial sizes 0..7, starting rounds 0..11, conversions) is enumerated',
                       'the algebra of the scheme is exhausted on 4-bit words (MC_Masking); on the 32-bit masked back end the raw share layout is not interpreted, values are read back with the library store function']
+    build_many(CONFIGS_T if th else CONFIGS_Q)
     for fl in (CONFIGS_T if th else CONFIGS_Q):
         p = Plan()
         toolkit(c, p, maxs_of(fl), th)
